@@ -12,7 +12,9 @@ use std::path::{Path, PathBuf};
 pub const SEC: i128 = 1_000_000_000;
 pub const NSHARDS: usize = 2;
 
-pub const FRONTS: [&str; 3] = ["plain", "sharded", "stack"];
+/// "stack2": as "stack" with a second read-only level holding a different value for the key (a failure to read the
+/// first copy must not be answered with the second)
+pub const FRONTS: [&str; 4] = ["plain", "sharded", "stack", "stack2"];
 /// pre-states: see `setup`
 pub const PRES: [&str; 8] = ["missing", "empty", "present", "crowd", "crowd+present", "debris", "debris+crowd+present", "present-secondary"];
 pub const OPS: [&str; 12] = [
@@ -51,7 +53,7 @@ impl Scn {
         if self.pre == "present-secondary" && self.front != "sharded" {
             return false;
         }
-        if self.op == "promote" && self.front != "stack" {
+        if self.op == "promote" && !self.front.starts_with("stack") {
             return false;
         }
         if self.op == "promote" && self.key_present() {
@@ -87,6 +89,9 @@ pub fn v_new_chunks() -> Val {
 }
 pub fn v_ro() -> Val {
     Val::new(3, Size::Five)
+}
+pub fn v_ro2() -> Val {
+    Val::new(4, Size::Five)
 }
 pub fn v_other(i: usize) -> Val {
     Val::new(10 + i as u8, Size::One)
@@ -132,8 +137,9 @@ impl World {
 pub fn setup(scn: &Scn) -> World {
     run::reset_env();
     let sc = Scratch::new();
-    let stack = scn.front == "stack";
-    let dirs = Dirs::under(&sc.root, if stack { 1 } else { 0 });
+    let stack = scn.front.starts_with("stack");
+    let two = scn.front == "stack2";
+    let dirs = Dirs::under(&sc.root, if two { 2 } else if stack { 1 } else { 0 });
     let front = if scn.front == "sharded" { Front::Sharded(NSHARDS) } else { Front::Plain };
     let now = shim::clock_peek_ns() as i128;
     let old = now - 86_400 * SEC;
@@ -167,6 +173,9 @@ pub fn setup(scn: &Scn) -> World {
         // the read-only level always holds the key (older value) and a bystander
         world::plant(&dirs.reads[0].join("key"), &v_ro().bytes(), 0o444, old - 3600 * SEC - 120 * SEC, old - 3600 * SEC);
         world::plant(&dirs.reads[0].join("other"), b"bystander", 0o444, old - 120 * SEC, old);
+        if two {
+            world::plant(&dirs.reads[1].join("key"), &v_ro2().bytes(), 0o444, old - 7200 * SEC - 120 * SEC, old - 7200 * SEC);
+        }
     }
     let capacity = if scn.crowd() {
         match front {
@@ -178,7 +187,7 @@ pub fn setup(scn: &Scn) -> World {
     };
     let cfg = StackCfg {
         writer: Some((front, capacity)),
-        readers: if stack { vec![Front::Plain] } else { vec![] },
+        readers: if two { vec![Front::Plain, Front::Plain] } else if stack { vec![Front::Plain] } else { vec![] },
         checker: Checker::None,
         auto_sync: true,
     };
@@ -201,7 +210,9 @@ pub fn setup(scn: &Scn) -> World {
 /// Values that may legitimately be stored under `name` in this scenario.
 pub fn allowed_values(name: &str) -> Vec<Val> {
     if name == "key" {
-        vec![v_old(), v_new(), v_new_chunks(), v_ro(), Val::new(20, Size::One), Val::new(21, Size::One)]
+        // (v_ro2: the second read-only level's value is what a lookup legitimately finds when the first level's
+        // copy is reported absent, ENOENT/ESTALE; whether it may be *returned* is the effect oracle's business)
+        vec![v_old(), v_new(), v_new_chunks(), v_ro(), v_ro2(), Val::new(20, Size::One), Val::new(21, Size::One)]
     } else if name == "key2" {
         vec![Val::new(22, Size::One), Val::new(23, Size::One)]
     } else if let Some(i) = name.strip_prefix('e').and_then(|s| s.parse::<usize>().ok()) {
